@@ -322,6 +322,30 @@ func init() {
 		doc3, _ := parser.ParseQuery(&ast.Source{Input: string(db)})
 		doc4, _ := parser.ParseQuery(&ast.Source{Input: string(db)})
 		events := EventsObs(schema, doc4)
-		return RunValidate(schema, doc3, rs) + " # " + links + " # " + events + " # " + req
+		errs := RunValidate(schema, doc3, rs)
+		// the links a caller finds on the document are the ones left after the RULES have run: no rule may
+		// change what the walker wrote (checked here, so that the walker-only dump above stays the reference)
+		if after := LinksObs(doc3); after != links && !strings.HasPrefix(errs, "PANIC") {
+			return "LINKS-CHANGED-BY-RULES " + HexW([]byte(firstDiff(links, after)))
+		}
+		return errs + " # " + links + " # " + events + " # " + req
 	}
+}
+
+// firstDiff: the first `;`-separated entries at which two dumps differ.
+func firstDiff(a, b string) string {
+	x, y := strings.Split(a, ";"), strings.Split(b, ";")
+	for i := 0; i < len(x) || i < len(y); i++ {
+		var p, q string
+		if i < len(x) {
+			p = x[i]
+		}
+		if i < len(y) {
+			q = y[i]
+		}
+		if p != q {
+			return "walker alone: " + p + " / after the rules: " + q
+		}
+	}
+	return ""
 }
